@@ -1,0 +1,16 @@
+//go:build verif
+
+package index
+
+import (
+	"encoding/binary"
+
+	"github.com/lindb/lindb/series/metric"
+)
+
+// VerifLookupSeries returns the series id stored for (metric, tags hash) without creating it.
+func VerifLookupSeries(db MetricIndexDatabase, metricID metric.ID, tagsHash uint64) (uint32, bool, error) {
+	var scratch [8]byte
+	binary.LittleEndian.PutUint64(scratch[:], tagsHash)
+	return db.(*metricIndexDatabase).series.GetValue(uint32(metricID), scratch[:])
+}
